@@ -155,18 +155,18 @@ theorem percent_roundtrip_valid (set : Percent.AsciiSet) (s : Bytes) (hs : Utf8.
 
 /-! ### (4) gzip / zlib -/
 
-/-- every `compression_level` that reaches flate2 as a level 0..9 (after the `as u32` cast). -/
-theorem gzip_roundtrip (P : Gzip.Prim) (b : Bytes) (level : Int) (hl : asU32 level ≤ 9) :
+/-- every accepted `compression_level` (0..10 after the `as u32` cast; 10 is clamped to 9). -/
+theorem gzip_roundtrip (P : Gzip.Prim) (b : Bytes) (level : Int) (hl : asU32 level ≤ 10) :
     RoundTrip b (andThen (Gzip.encode P b level) (Gzip.decode P)) := by
-  obtain ⟨c, hc, hd⟩ := P.rt (asU32 level) b hl
+  obtain ⟨c, hc, hd⟩ := P.rt (min (asU32 level) 9) b (Nat.min_le_right _ _)
   have : Gzip.level? level = some (asU32 level) := by
     have hnot : ¬ asU32 level > Gzip.maxLevel := by simp only [Gzip.maxLevel]; omega
     simp [Gzip.level?, hnot]
   simp [RoundTrip, Gzip.encode, this, hc, andThen, Gzip.decode, hd]
 
-theorem zlib_roundtrip (P : Zlib.Prim) (b : Bytes) (level : Int) (hl : asU32 level ≤ 9) :
+theorem zlib_roundtrip (P : Zlib.Prim) (b : Bytes) (level : Int) (hl : asU32 level ≤ 10) :
     RoundTrip b (andThen (Zlib.encode P b level) (Zlib.decode P)) := by
-  obtain ⟨c, hc, hd⟩ := P.rt (asU32 level) b hl
+  obtain ⟨c, hc, hd⟩ := P.rt (min (asU32 level) 9) b (Nat.min_le_right _ _)
   have : Zlib.level? level = some (asU32 level) := by
     have hnot : ¬ asU32 level > Zlib.maxLevel := by simp only [Zlib.maxLevel]; omega
     simp [Zlib.level?, hnot]
@@ -265,12 +265,12 @@ theorem charset_unknown_label (P : Charset.Prim) (t label : Bytes) (hl : P.forLa
     (Utf8.lossy t = t → Charset.encodeCharset P t label = .err) := by
   simp [Charset.encodeCharset, Charset.decodeCharset, hl]
 
-theorem charset_encode_panics_iff (P : Charset.Prim) (t label : Bytes) :
-    Charset.encodeCharset P t label = .panic ↔ Utf8.lossy t ≠ t := by
+theorem charset_encode_never_panics (P : Charset.Prim) (t label : Bytes) :
+    Charset.encodeCharset P t label ≠ .panic := by
   unfold Charset.encodeCharset
   split
-  · simp_all
-  · split <;> simp_all
+  · simp
+  · split <;> simp
 
 /-! ### (9) punycode -/
 
